@@ -17,8 +17,8 @@ import (
 
 //verif:include ../dnsdata/rdb/zz_verif_model.go
 //verif:include zz_verif_world.go
-//verif:harness H03_rdb property=C03 native=no quick=n=1,f0=4,cf=46,trunc=0,vsym=2,rel=0;n=1,f0=4,cf=4,trunc=1,vsym=2,rel=0;n=1,f0=4,cf=4,trunc=0,vsym=2,rel=0;n=1,f0=6,cf=6,trunc=1,vsym=2,rel=0;n=1,f0=6,cf=4,trunc=1,vsym=2,rel=0;n=1,f0=4,cf=6,trunc=1,vsym=2,rel=0;n=2,f0=4,f1=4,cf=4,trunc=1,vsym=2,rel=2 thorough=n=2,f0=4,f1=4,cf=4,trunc=1,vsym=2,rel=1;n=1,f0=6,cf=6,trunc=0,vsym=16,rel=0;n=2,f0=4,f1=4,cf=4,trunc=0,vsym=2,rel=0;n=2,f0=4,f1=6,cf=4,trunc=1,vsym=2,rel=0;n=2,f0=4,f1=6,cf=6,trunc=1,vsym=2,rel=0;n=2,f0=6,f1=6,cf=6,trunc=1,vsym=2,rel=1
-//verif:harness H03_cdb property=C03 native=no quick=n=2,f0=4,f1=6,cf=6,trunc=1,sep=1,vsym=2,rel=3;n=1,f0=6,cf=46,trunc=1,sep=1,vsym=2,rel=0;n=1,f0=4,cf=4,trunc=1,sep=0,vsym=2,rel=0;n=1,f0=4,cf=4,trunc=0,sep=0,vsym=2,rel=0;n=1,f0=6,cf=4,trunc=1,sep=0,vsym=2,rel=0;n=1,f0=6,cf=4,trunc=1,sep=1,vsym=2,rel=0 thorough=n=1,f0=4,cf=46,trunc=0,sep=0,vsym=2,rel=0;n=1,f0=6,cf=6,trunc=1,sep=0,vsym=2,rel=0;n=2,f0=4,f1=4,cf=4,trunc=1,sep=0,vsym=2,rel=1;n=2,f0=4,f1=6,cf=4,trunc=0,sep=1,vsym=2,rel=0;n=2,f0=4,f1=6,cf=4,trunc=1,sep=0,vsym=2,rel=0
+//verif:harness H03_rdb property=C03 native=no quick=n=1,f0=4,cf=46,trunc=0,vsym=2,rel=0;n=1,f0=4,cf=4,trunc=1,vsym=2,rel=0;n=1,f0=4,cf=4,trunc=0,vsym=2,rel=0;n=1,f0=6,cf=6,trunc=1,vsym=2,rel=0;n=1,f0=6,cf=4,trunc=1,vsym=2,rel=0;n=1,f0=4,cf=6,trunc=1,vsym=2,rel=0;n=2,f0=4,f1=4,cf=4,trunc=1,vsym=2,rel=2 thorough=n=2,f0=4,f1=4,cf=4,trunc=1,vsym=2,rel=1;n=1,f0=6,cf=6,trunc=0,vsym=16,rel=0
+//verif:harness H03_cdb property=C03 native=no quick=n=2,f0=4,f1=6,cf=6,trunc=1,sep=1,vsym=2,rel=3;n=1,f0=6,cf=46,trunc=1,sep=1,vsym=2,rel=0;n=1,f0=4,cf=4,trunc=1,sep=0,vsym=2,rel=0;n=1,f0=4,cf=4,trunc=0,sep=0,vsym=2,rel=0;n=1,f0=6,cf=4,trunc=1,sep=0,vsym=2,rel=0;n=1,f0=6,cf=4,trunc=1,sep=1,vsym=2,rel=0 thorough=n=1,f0=4,cf=46,trunc=0,sep=0,vsym=2,rel=0;n=1,f0=6,cf=6,trunc=1,sep=0,vsym=2,rel=0;n=2,f0=6,f1=4,cf=4,trunc=1,sep=1,vsym=2,rel=3
 
 var verifV4Prefix = [12]byte{0, 0, 0, 0, 0, 0, 0, 0, 0, 0, 0xff, 0xff}
 
